@@ -2,6 +2,7 @@
   C04 — emitted JavaScript is valid and denotes the same program as the Lingo (spec-layer statements).
 -/
 import Drx.Spec.JsRead
+import DrxProofs.SpecJs
 namespace DrxProps.C04
 open Drx Drx.Spec
 
@@ -9,6 +10,45 @@ open Drx Drx.Spec
 def C04_full (genJs : Bytes → Bytes → Option (List Char)) : Prop :=
   ∀ (o : Options) (s : Script) (c : Compiled), compile o s = .ok c →
     ∃ text, genJs c.lscr c.lnam = some text ∧ (readJs text).map (·.map JTop.render) = some ((toJs o.scrNum s).map JTop.render)
+
+/-! ### 7(e): the reader of the JavaScript subset inverts the reference printer (unbounded, expression fragment) -/
+
+/-- for every expression tree of the subset the translator emits (numbers, string objects, plain strings, identifiers, member and
+    index access, calls, prefix `-` `!`, the 13 infix operators; any depth, any argument count), reading the tokens the reference
+    printer writes — binary operations parenthesised, prefix operators as `-(x)`, numeric / prefix receivers parenthesised — gives
+    the tree back, at every grouping level and followed by anything that cannot continue an expression -/
+theorem js_read_print_expr (e : JE) (h : JFrag e) (lvl : Nat) (h1 : 1 ≤ lvl) (h7 : lvl ≤ 7)
+    (R : List JTok) (hf : JFollow lvl R) (hp : NoPost R) (F : Nat) (hF : jfuel e + 10 ≤ F) :
+    jLevel F lvl (prJ e ++ R) = some (e, R) :=
+  jclimb _ _ e (jfuel e + 2) (fun F' hF' => js_whole e h R hp F' hF') (7 - lvl) lvl (by omega) h1 hf F (by omega)
+
+theorem js_read_print_expr_whole (e : JE) (h : JFrag e) (F : Nat) (hF : jfuel e + 10 ≤ F) : jExpr F (prJ e) = some (e, []) := by
+  have := js_read_print_expr e h 1 (Nat.le_refl 1) (by omega) [] trivial trivial F hF
+  simpa [jExpr] using this
+
+/-- argument lists -/
+theorem js_read_print_args (es : List JE) (h : JFragL es) (R : List JTok) (F : Nat) (hF : jfuelL es + 1 ≤ F) :
+    jArgs F (prJArgs es ++ .p .rp :: R) = some (es, R) := js_args es h R F hF
+
+/-- what `toJs` assigns to a Lingo expression (all operators incl. the method-style string operators and sprite tests, variables
+    of the four kinds, `field`, plain function calls, lists, function-like / movie / object properties, chunk expressions) lies in
+    that fragment … -/
+theorem toJs_in_fragment (c : JCtx) (e : Expr) (h : JsSrc e) : JFrag (toJsE c e) := toJsE_frag c e h
+
+/-- … hence `readJs (printJs (toJs e)) = toJs e` for every such expression -/
+theorem js_read_print_toJs (c : JCtx) (e : Expr) (h : JsSrc e) (F : Nat) (hF : jfuel (toJsE c e) + 10 ≤ F) :
+    jExpr F (prJ (toJsE c e)) = some (toJsE c e, []) :=
+  js_read_print_expr_whole (toJsE c e) (toJsE_frag c e h) F hF
+
+/-- non-vacuity: `(a & "x") contains -b`, i.e. `a.concat(new LingoString("x")).contains(-(b))`, with `a` a parameter and `b` a
+    global, satisfies the hypothesis, and the reader indeed returns the tree -/
+example :
+    let e : Expr := .bin .contains (.bin .concat (.var .param "a".toList) (.str "x".toList)) (.un .neg (.var .glob "b".toList))
+    let c : JCtx := { handlers := [], inTell := false }
+    JsSrc e ∧ (jExpr (jfuel (toJsE c e) + 10) (prJ (toJsE c e))).map (·.1.render) = some (toJsE c e).render := by
+  refine ⟨?_, by decide +kernel⟩
+  simp only [JsSrc]
+  decide +kernel
 
 /-- JavaScript's lexical rule the F41 finding is about: an identifier directly after a numeric literal is an error -/
 theorem number_then_identifier_is_invalid : readJsExpr "1.concat(b)".toList = none := by decide +kernel
